@@ -1186,7 +1186,15 @@ func (t *http2Client) updateWindow(s *ClientStream, n uint32) {
 // for the transport and the stream based on the current bdp
 // estimation.
 func (t *http2Client) updateFlowControl(n uint32) {
+	// The estimate may be smaller than a configured initial window; windows
+	// are only ever grown.
+	if w := t.fc.newLimit(n); w > 0 {
+		t.controlBuf.put(&outgoingWindowUpdate{streamID: 0, increment: w})
+	}
 	updateIWS := func() bool {
+		if n <= uint32(t.initialWindowSize) {
+			return false
+		}
 		t.initialWindowSize = int32(n)
 		t.mu.Lock()
 		for _, s := range t.activeStreams {
@@ -1195,8 +1203,7 @@ func (t *http2Client) updateFlowControl(n uint32) {
 		t.mu.Unlock()
 		return true
 	}
-	t.controlBuf.executeAndPut(updateIWS, &outgoingWindowUpdate{streamID: 0, increment: t.fc.newLimit(n)})
-	t.controlBuf.put(&outgoingSettings{
+	t.controlBuf.executeAndPut(updateIWS, &outgoingSettings{
 		ss: []http2.Setting{
 			{
 				ID:  http2.SettingInitialWindowSize,
